@@ -6,7 +6,7 @@
    methods that decide what goes through the indenting writer and what bypasses it).  Both are tied to js/ast.go and
    util.go by correspondence runs; the parser is the model of C03 ([parse]). *)
 From Verif Require Import Common.Base Gen.PrattTable JsExpr.Syntax JsExpr.Pratt JsExpr.Spec
-  JsPrint.Print JsPrint.Proofs JsPrint.Indent JsPrint.IndentProofs.
+  JsPrint.Print JsPrint.Proofs JsPrint.Glue JsPrint.Indent JsPrint.IndentProofs.
 
 (* Print the tree of any accepted token list and read the written tokens again ([ptoks]: the items without the
    spaces): they are accepted, the tree is the original one with a GroupExpr around each numeric literal that stands
@@ -27,6 +27,16 @@ Theorem print_reparses_spelling :
   forall q inf ts t, spells q inf ts t -> parse inf prec_OpExpr (ptoks (pitems t)) = Ok (ng t, []).
 Proof. exact print_reparses_spelling_proof. Qed.
 Print Assumptions print_reparses_spelling.
+
+(* Wherever the printer writes two tokens with no space between them ([gaps]), the pair is safe for a longest-match
+   lexer ([glue_ok]: not two word-like tokens, not a decimal literal before '.', not two punctuators whose bytes begin
+   a longer punctuator or a comment) — for the tree of every accepted token list.  This is what the space in `+ +a`,
+   `- --a` and the parentheses in `(1).a` are for; [glue_ok] is a specification of the hazard written from the
+   lexical grammar, not the C06 lexer model itself. *)
+Theorem unspaced_tokens_safe :
+  forall inf ts t, parse inf prec_OpExpr ts = Ok (t, []) -> gaps_ok (gaps (pitems t)) = true.
+Proof. exact unspaced_tokens_safe_proof. Qed.
+Print Assumptions unspaced_tokens_safe.
 
 (* Printing is idempotent from the first round on, for every tree (parsed or not): the re-parsed tree prints to the
    same bytes, and a second round leaves the tree unchanged. *)
